@@ -5,16 +5,10 @@
 (* (settle). The two cleanup steps the harness can schedule (CliExit, SrvExit) and everything the environment does are      *)
 (* commands. hist is printed as ONE JSON line.                                                                               *)
 EXTENDS IntraProxy, Json
-CONSTANTS Depth, MaxSlow, Warm
+CONSTANTS Depth, MaxSlow
 VARIABLES hist, nslow
 svars == <<vars, hist, nslow>>
 Cmd(r) == hist' = Append(hist, r)
-\* Warm: the run starts with one shard of either cluster local to each of the first two instances and accurate views (the
-\* commands that produce this state are the first four of the schedule), so that most of the schedule is spent on streams
-WA == CHOOSE i \in Inst : TRUE
-WB == CHOOSE i \in Inst \ {WA} : TRUE
-W1 == CHOOSE sh \in Shard : \A x \in Shard : sh <= x
-W2 == CHOOSE sh \in Shard : Cluster(sh) # Cluster(W1) /\ \A x \in Shard : Cluster(x) # Cluster(W1) => sh <= x
 SimInit == /\ nslow = 0 /\ InitRest
            /\ IF Warm THEN /\ local = [i \in Inst |-> IF i = WA THEN {W1} ELSE IF i = WB THEN {W2} ELSE {}]
                             /\ view = [i \in Inst |-> [p \in Inst |-> IF i = WA /\ p = WB THEN {W2} ELSE IF i = WB /\ p = WA THEN {W1} ELSE {}]]
@@ -24,8 +18,9 @@ SimInit == /\ nslow = 0 /\ InitRest
 
 Auto == \/ \E i \in Inst : Ensure(i) \/ Prune(i)
         \/ \E n \in Sid : CliOpen(n) \/ CliOpenFail(n) \/ SrvArrive(n) \/ SrvSkip(n) \/ CliEnd(n) \/ SrvEnd(n)
-        \/ \E m \in msgs : Deliver(m)
-Explicit ==
+        \/ \E m \in msgs : Deliver(m) \/ Consume(m)
+\* while a local consumer is stalled the schedule only hands messages / acks over and releases it (a pure back-pressure window)
+Explicit0 ==
   \/ \E i \in Inst, sh \in Shard : \/ AddLocal(i, sh) /\ Cmd([a |-> "AddLocal", i |-> i, sh |-> sh])
                                    \/ RemoveLocal(i, sh) /\ Cmd([a |-> "RemoveLocal", i |-> i, sh |-> sh])
   \* a push of p's current state, or a stale / wrong one of at most one shard
@@ -38,14 +33,20 @@ Explicit ==
                      /\ Begin(i) /\ Cmd([a |-> "Reconcile", i |-> i])
   \/ \E n \in Sid : \/ CliExit(n) /\ Cmd([a |-> "CliExit", i |-> st[n].cli, j |-> st[n].srv, t |-> st[n].key[1], s |-> st[n].key[2]])
                     \/ SrvExit(n) /\ Cmd([a |-> "SrvExit", i |-> st[n].cli, j |-> st[n].srv, t |-> st[n].key[1], s |-> st[n].key[2]])
+Explicit == stall = {} /\ Explicit0
 SlowOK(n) == IF n = 0 THEN nslow < MaxSlow /\ nslow' = nslow + 1 ELSE nslow' = nslow   \* a hand-off without a sender waits 2 s
 Routes ==
   \/ \E j \in Inst, k \in Keys : /\ RouteMsg(j, k) /\ SlowOK(MsgStream(j, k))
                                  /\ Cmd([a |-> "RouteMsg", i |-> j, t |-> k[1], s |-> k[2]])
   \/ \E i \in Inst, k \in Keys : /\ RouteAck(i, k) /\ nslow' = nslow
                                  /\ Cmd([a |-> "RouteAck", i |-> i, t |-> k[1], s |-> k[2]])
+\* a consumer is stalled only while an open stream can hand something to its channels
+Feeds(i, sh) == \E n \in Sid : Healthy(n) /\ ((st[n].cli = i /\ st[n].key[1] = sh) \/ (st[n].srv = i /\ st[n].key[2] = sh))
+Stalls ==
+  \E i \in Inst, sh \in Shard : \/ (stall = {} /\ Feeds(i, sh) /\ Stall(i, sh) /\ Cmd([a |-> "Stall", i |-> i, sh |-> sh]))
+                                  \/ (Unstall(i, sh) /\ Cmd([a |-> "Unstall", i |-> i, sh |-> sh]))
 SimNext == /\ Len(hist) < Depth
            /\ IF ENABLED Auto THEN Auto /\ UNCHANGED <<hist, nslow>>
-              ELSE (Explicit /\ nslow' = nslow) \/ Routes
+              ELSE (Explicit /\ nslow' = nslow) \/ Routes \/ (Stalls /\ nslow' = nslow)
            /\ (Len(hist') = Depth => PrintT(ToJson(hist')))
 =============================================================================
